@@ -48,6 +48,38 @@ func cmpAny(rel, fn string) []string {
 	return out
 }
 
+// cmpFull renders every comparison with an int/string literal, identifier, nil or selector
+// (a.b) on the right-hand side.
+func cmpFull(rel, fn string) []string {
+	fd := funcDecl(rel, fn)
+	if fd == nil {
+		return nil
+	}
+	var out []string
+	ast.Inspect(fd.Body, func(n ast.Node) bool {
+		be, ok := n.(*ast.BinaryExpr)
+		if !ok {
+			return true
+		}
+		switch be.Op {
+		case token.EQL, token.NEQ, token.LSS, token.LEQ, token.GTR, token.GEQ:
+			if v, ok := intLit(be.Y); ok {
+				out = append(out, fmt.Sprintf("%s%d", be.Op.String(), v))
+			} else if s, ok := strLit(be.Y); ok {
+				out = append(out, fmt.Sprintf("%s%q", be.Op.String(), s))
+			} else if id, ok := be.Y.(*ast.Ident); ok {
+				out = append(out, be.Op.String()+id.Name)
+			} else if se, ok := be.Y.(*ast.SelectorExpr); ok {
+				if x, ok := se.X.(*ast.Ident); ok {
+					out = append(out, be.Op.String()+x.Name+"."+se.Sel.Name)
+				}
+			}
+		}
+		return true
+	})
+	return out
+}
+
 // cmpAnyNil is cmpAny including comparisons against nil.
 func cmpAnyNil(rel, fn string) []string {
 	fd := funcDecl(rel, fn)
